@@ -107,10 +107,10 @@ fn two_chunks_sized(s0: u8, s1: u8) -> ([u64; 2], [usize; 2], Vec<ChunkOffset>) 
 // C08-5a / C17: state Seek: the reader seeks to exactly chunk.offset, for
 // any order of offsets (no adjacency assumed), then reads.
 // ---------------------------------------------------------------------------
-fn io_seek_step(s0: u8, s1: u8, blen: usize) {
+fn io_seek_step(s0: u8, s1: u8, blen: usize, idx: usize) {
+    // position concrete per instance: with sizes and position concrete "is the chunk complete?" is decided
+    // statically and the emit path (clone/truncate/freeze) stays out of this harness' formula
     let (o, s, chunks) = two_chunks_sized(s0, s1);
-    let idx: usize = kani::any();
-    kani::assume(idx < 2);
     // the cursor is wherever the previous chunk left it
     let cur: u64 = kani::any();
     kani::assume(cur < 24);
@@ -146,36 +146,40 @@ fn io_seek_step(s0: u8, s1: u8, blen: usize) {
         }
         _ => assert!(false),
     }
-    kani::cover!(idx == 1 && o[1] < o[0]); // descending offsets
+    kani::cover!(o[1] < o[0]); // descending offsets
     kani::cover!(cp);
     std::mem::forget(r);
 }
 #[kani::proof]
 #[kani::unwind(5)]
 fn c08_io_seek_step_s2_s3_b0() {
-    io_seek_step(2, 3, 0);
+    io_seek_step(2, 3, 0, 0);
+}
+#[kani::proof]
+#[kani::unwind(5)]
+fn c08_io_seek_step_s2_s3_b2_i1() {
+    io_seek_step(2, 3, 2, 1);
 }
 #[kani::proof]
 #[kani::unwind(5)]
 fn c08_io_seek_step_s3_s1_b3() {
-    io_seek_step(3, 1, 3);
+    io_seek_step(3, 1, 3, 1);
 }
 #[kani::proof]
 #[kani::unwind(5)]
 fn c08_io_seek_step_s1_s4_b2() {
-    io_seek_step(1, 4, 2);
+    io_seek_step(1, 4, 2, 0);
 }
 
 // ---------------------------------------------------------------------------
 // C08-5b: state Read with J: one answer of the reader
 // ---------------------------------------------------------------------------
 fn io_read_step(size: u8, bo: usize) {
-    io_read_step_k(size, bo, 0)
+    io_read_step_k(size, bo, 0, 0)
 }
-fn io_read_step_k(size: u8, bo: usize, kind: u8) {
+fn io_read_step_k(size: u8, bo: usize, kind: u8, idx: usize) {
+    // concrete position (see io_seek_step); offsets -- incl. the following chunk's -- are symbolic
     let (o, s, chunks) = two_chunks_sized(size, size);
-    let idx: usize = kani::any();
-    kani::assume(idx < 2);
     let answer: u8 = kani::any();
     kani::assume(answer <= 6);
     match kind {
@@ -205,8 +209,10 @@ fn io_read_step_k(size: u8, bo: usize, kind: u8) {
             assert!(b.len() == s[idx]);
             assert!(bytes_match(&b[..], &FILE[..], o[idx] as usize));
             assert!(r.chunk_index == idx + 1 && r.buf_offset == 0);
-            assert!(matches!(r.state, IoChunkReaderState::Seek)); // the next chunk is located by its own offset
-            assert!(r.reader.seeks == 0);
+            // the next chunk is located by its own offset: either a seek is pending, or (an optimisation a
+            // correct reader may make) the cursor already is exactly at the next chunk's offset
+            let at_next = r.chunk_index < 2 && r.reader.pos == o[if r.chunk_index < 2 { r.chunk_index } else { 0 }];
+            assert!(matches!(r.state, IoChunkReaderState::Seek) || (matches!(r.state, IoChunkReaderState::Read) && at_next));
             kani::cover!(true);
             std::mem::forget(b);
         }
@@ -252,6 +258,17 @@ io_read_step!(c08_io_read_step_s3_b0, 3, 0);
 io_read_step!(c08_io_read_step_s3_b1, 3, 1);
 io_read_step!(c08_io_read_step_s3_b2, 3, 2);
 io_read_step!(c08_io_read_step_s4_b1, 4, 1);
+/// the chunk being read is the last of the list
+#[kani::proof]
+#[kani::unwind(6)]
+fn c08_io_read_step_s2_b1_last() {
+    io_read_step_k(2, 1, 0, 1);
+}
+#[kani::proof]
+#[kani::unwind(6)]
+fn c08_io_read_step_s3_b0_last() {
+    io_read_step_k(3, 0, 0, 1);
+}
 
 // ---------------------------------------------------------------------------
 // end of list / C15: zero-size ranges
